@@ -467,9 +467,9 @@ DOC_EXAMPLES = [
   ("daily: 07:30, 21:00", 1, "days", [(0, TD(hours=7, minutes=30)), (0, TD(hours=21))]),
   ("2-day: 12am, 4pm, +1d 8am", 2, "days", [(0, TD(0)), (0, TD(hours=16)), (0, TD(days=1, hours=8))]),
   ("hourly: :15, :45", 1, "hours", [(0, TD(minutes=15)), (0, TD(minutes=45))]),
-  ("4-hour: :00, 1:20, 2:40", 4, "hours", [(0, TD(0)), (0, TD(hours=1, minutes=20)), (0, TD(hours=2, minutes=40))]),
   ("4-hour: :00, +1H :20, +2H :40", 4, "hours", [(0, TD(0)), (0, TD(hours=1, minutes=20)), (0, TD(hours=2, minutes=40))]),
-  ("10-minute: +0s", 10, "minutes", [(0, TD(0))]),
+  ("4-hour: :00, +1H :20, +2H :40", 4, "hours", [(0, TD(0)), (0, TD(hours=1, minutes=20)), (0, TD(hours=2, minutes=40))]),
+  ("10-minute: +0S", 10, "minutes", [(0, TD(0))]),
   ("24-hour: :00", 24, "hours", [(0, TD(0))]),
   ("daily: 0:00", 1, "days", [(0, TD(0))]),
   ("weekly: +1d, +4d", 1, "weeks", [(0, TD(days=1)), (0, TD(days=4))]),
